@@ -13,7 +13,7 @@ CFG = dict(
               "normalized_idem", "lastFace_unwelded", "flatNormalAt_unwelded",
               "flatNormals_spec_nondegenerate", "lapUpdate_value_with_neighbours", "neighbours_ne_nil_of_edge", "laplacian_order_independent", "lapIter_any_enumeration", "neighbours_mem", "neighbours_nodup", "laplacian_frame", "smoothNormals_frame", "flatNormals_frame",
               # round 2 (Props/C03More.lean)
-              "aabbContains_closed", "aabbContains_corners", "crop_contract", "crop_deciding_attr", "scaleAlongNormal_spec", "scaleAlongNormal_rejects", "scaleAlongNormal_rejects_wf",
+              "aabbContains_closed", "aabbContains_corners", "crop_contract", "cropContract_unique", "crop_deciding_attr", "crop_survivors", "scaleAlongNormal_vertex", "scaleAlongNormal_spec", "scaleAlongNormal_rejects", "scaleAlongNormal_rejects_wf",
               "scale2D_spec", "normalize2D_spec", "scale2D_rejects", "normalize2D_rejects", "copyAttr_spec", "alongNormal_post", "scale2D_post", "cropNode_spec", "scaleAlongNormalNode_spec", "translateNode_spec", "rotateNode_spec", "scaleNode_spec",
               # round 2 (Props/C03Src.lean): the model lambdas are the expressions regenerated from the Go source
               "translate_from_source", "scaleAbout_from_source", "rotate_from_source", "scale2D_from_source", "alongNormal_from_source", "perVertex_glue_from_source", "crop_keep_from_source", "crop_keep_closed"],
